@@ -15,7 +15,8 @@ PROP = 'C06'
 TRUSTED = [
     'modelled, not verified: genshi/filters/html.py HTMLSanitizer (__call__, is_safe_elem, is_safe_uri, is_safe_css, '
     'sanitize_css, _replace_unicode_escapes, _strip_css_comments) and genshi/util.py stripentities: hand-written Lean '
-    'model tied by correspondence on tag soup, raw event streams, CSS texts, URIs and entity texts',
+    'model tied by correspondence on tag soup, raw event streams, CSS texts, URIs and entity texts, each helper also by '
+    'itself, and at depths beyond the recursion limit of the interpreter (stream deep)',
     'not modelled: the `re` engine (the five regular expressions are re-implemented as list scanners), html.parser and '
     'the serializers (exercised by the re-parse oracle only), str.lower beyond the generated per-character table '
     '(final-sigma context)',
@@ -463,6 +464,15 @@ def oracle_case(case, res=None, real=None):
             res.count('outside-assumptions')
         return None
     kind = case['kind']
+    if kind == 'deep':
+        # a depth-parameterised case is judged as the concrete case it stands for (same clauses:
+        # the call returns without an exception of any type, whitelist, nesting, re-parse); the
+        # report keeps the compact form
+        f = oracle_case(expand_deep(case), res, real)
+        if f:
+            f = {'case': case, 'what': 'at depth %d (%s via %s): %s' % (case['depth'], case['shape'], case['via'], f['what']),
+                 'expected': f['expected'], 'observed': _short(f['observed'])}
+        return f
     fails = []
 
     def bad(what, expected, observed):
@@ -623,6 +633,13 @@ def model_requests(case, real):
                 out.append(('is_safe_elem', proto.line(Atom('C06'), Atom('elem'), wire_cfg(cfg2), list(e[1]),
                                                        [[list(a), v] for a, v in e[2]]), expb))
         if real['status'] == 'ok':
+            # a DOCTYPE the filter keeps (no '>' in it, any quotes), as the HTML serializer writes it
+            # and html.parser reads it back, against the html-mode reader of the re-parse theorems
+            # (`feed_doctype_html`: read back whole whatever the quotes)
+            for e in [e for e in real['out'] if e[0] == 'DT'][:1]:
+                rq = doctype_reader_request(e)
+                if rq:
+                    out.append(rq)
             r = real['r']
             for e in real['out']:
                 if e[0] != 'S':
@@ -640,6 +657,23 @@ def model_requests(case, real):
         except Exception as ex:  # noqa
             exp = [Atom('err'), Atom(exc_name(ex))]
         out.append(('sanitize_css', proto.line(Atom('C06'), Atom('css'), cfgw, case['text']), exp))
+        # the helpers one by one (wave 4): escape decoding, comment removal (on the text as given and
+        # on the decoded text), is_safe_css on the pieces the loop of sanitize_css would hand it
+        def call(f, *a):
+            try:
+                return [Atom('ok'), str(f(*a))]
+            except Exception as ex:  # noqa
+                return [Atom('err'), Atom(exc_name(ex))]
+        un = call(san._replace_unicode_escapes, case['text'])
+        out.append(('_replace_unicode_escapes', proto.line(Atom('C06'), Atom('unesc'), case['text']), un))
+        for t in [case['text']] + ([un[1]] if un[0] == 'ok' and un[1] != case['text'] else []):
+            out.append(('_strip_css_comments', proto.line(Atom('C06'), Atom('nocomm'), t), str(san._strip_css_comments(t))))
+        if un[0] == 'ok':
+            pieces = [d for d in san._strip_css_comments(un[1]).split(';') if ':' in d][:3]
+            for d in pieces:
+                pn, v = d.strip().split(':', 1)
+                pn, v = pn.strip().lower(), v.strip()
+                out.append(('is_safe_css', proto.line(Atom('C06'), Atom('propok'), cfgw, pn, v), B(bool(san.is_safe_css(pn, v)))))
         out.append(('spec-cssdecode', proto.line(Atom('C06'), Atom('cssdecode'), case['text']), css_decode(case['text'])))
         out.append(('spec-cssok', proto.line(Atom('C06'), Atom('cssok'), r['safe_schemes'], case['text']),
                     B(not css_problems(case['text'], r['safe_schemes']))))
@@ -659,11 +693,52 @@ def model_requests(case, real):
         except Exception as ex:  # noqa
             exp = [Atom('err'), Atom(exc_name(ex))]
         out.append(('stripentities', proto.line(Atom('C06'), Atom('ent'), case['text']), exp))
+        # the decoding loop of the attribute loop by itself: the value of a kept attribute
+        from genshi.core import Attrs, QName, START
+        from genshi.filters.html import HTMLSanitizer
+        try:
+            evs = list(HTMLSanitizer()(iter([(START, (QName('p'), Attrs([(QName('title'), case['text'])])), (None, 1, 0))])))
+            exp2 = [Atom('ok'), str(evs[0][1][1].get('title'))]
+        except Exception as ex:  # noqa
+            exp2 = [Atom('err'), Atom(exc_name(ex))]
+        out.append(('decode-loop', proto.line(Atom('C06'), Atom('refs'), case['text']), exp2))
     return out
 
 
-def compare(cases, reals, res):
+def doctype_reader_request(e):
+    from genshi.core import Stream, QName, Attrs, START, END, TEXT, DOCTYPE
+    from harness import outlib
+    pos = (None, 1, 0)
+    try:
+        text = Stream([(DOCTYPE, (e[1], e[2], e[3]), pos), (START, (QName('p'), Attrs()), pos), (TEXT, 'x', pos),
+                       (END, QName('p'), pos)]).render('html', encoding=None, strip_whitespace=False)
+    except Exception:   # a DOCTYPE event without a name: the serializer's business (C08)
+        return None
+    exp = []
+    for t in outlib.html_tokens(text):
+        if t[0] == 'decl':
+            exp.append([Atom('DT'), t[1][8:]] if t[1].startswith('DOCTYPE ') else [Atom('OTHER'), t[1]])
+        elif t[0] == 'start':
+            exp.append([Atom('S'), t[1], [[a, N if v is None else v] for a, v in t[2]], B(False)])
+        elif t[0] == 'startend':
+            exp.append([Atom('S'), t[1], [[a, N if v is None else v] for a, v in t[2]], B(True)])
+        elif t[0] == 'end':
+            exp.append([Atom('E'), t[1]])
+        elif t[0] == 'text':
+            exp.append([Atom('T'), t[1]])
+        elif t[0] == 'comment':
+            exp.append([Atom('C'), t[1]])
+        elif t[0] == 'pi':
+            exp.append([Atom('PI'), t[1]])
+        else:
+            exp.append([Atom('OTHER'), str(t[1])])
+    return ('reader-doctype-html', proto.line(Atom('C06'), Atom('htoks'), text), exp)
+
+
+def compare(cases, reals, res, labels=None):
+    """`labels`: what to report instead of the (large) concrete case"""
     reqs = []
+    labels = labels or cases
     for i, c in enumerate(cases):
         if has_surrogate(json.loads(json.dumps(c))):
             res.count('model:skipped-surrogate-input')
@@ -671,7 +746,7 @@ def compare(cases, reals, res):
         try:
             rs = model_requests(c, reals[i])
         except Exception as ex:  # noqa
-            res.disagreements.append({'stream': 'harness', 'case': c, 'model': None,
+            res.disagreements.append({'stream': 'harness', 'case': labels[i], 'model': None,
                                       'real': 'building the request raised %s: %s' % (exc_name(ex), ex)})
             continue
         for name, line, exp in rs:
@@ -692,7 +767,8 @@ def compare(cases, reals, res):
             pass
         res.streams[name] = res.streams.get(name, 0) + 1
         if norm(model) != norm(exp):
-            res.disagreements.append({'stream': name, 'case': cases[i], 'model': repr(model)[:600], 'real': repr(exp)[:600]})
+            res.disagreements.append({'stream': name, 'case': labels[i], 'model': _diff_window(repr(model), repr(exp))[0],
+                                      'real': _diff_window(repr(model), repr(exp))[1]})
 
 
 def norm(x):
@@ -743,6 +819,10 @@ def count_branches(real, res):
             open_tags.append(tag)
             for a, v in e[2]:
                 an = qtext(a)
+                if an == 'type' and '&' in v and 'input' in tag.lower():
+                    res.count('branch:input-type-with-reference')
+                    if '&amp;' in v:
+                        res.count('branch:input-type-with-nested-reference')
                 if an in r['safe_attrs'] and an in r['uri_attrs']:
                     res.count('branch:uri-attribute-seen')
                     if ':' in v:
@@ -773,6 +853,9 @@ def count_branches(real, res):
                     res.count('branch:name-with-brace')
                 if not nm[0] and t.startswith('{}'):
                     res.count('branch:name-in-empty-namespace')
+    for e in real['out']:
+        if e[0] == 'DT' and any(x and ('"' in x or "'" in x) for x in e[1:4]):
+            res.count('branch:doctype-kept-with-quote')
     for an, n in kept.items():
         if an in r['uri_attrs']:
             res.count('branch:uri-attribute-kept', n)
@@ -894,6 +977,237 @@ def exhaustive_shard(arg):
     return res
 
 
+# ---------------------------------------------------------------------------------------
+# the `deep` stream: every iterated construct of the sanitizer at depths beyond the interpreter's
+# recursion limit (few cases, each large; both tiers).  The clause "never fails" must hold at
+# DEPTH too: a repeat-until-stable loop written recursively, a recursive descent over nested
+# elements, a regular expression that backtracks per layer -- none shows on small inputs.
+
+def _short(x, n=300):
+    t = x if isinstance(x, str) else json.dumps(x, sort_keys=True, default=repr)
+    return t if len(t) <= n else t[:n] + '... (%d characters)' % len(t)
+
+
+def _diff_window(a, b, n=300):
+    """two long texts: the windows around their first difference"""
+    if len(a) <= 2 * n and len(b) <= 2 * n:
+        return a, b
+    i = 0
+    m = min(len(a), len(b))
+    while i < m and a[i] == b[i]:
+        i += 1
+    lo = max(0, i - n // 2)
+    return ('@%d:' % lo) + a[lo:lo + n], ('@%d:' % lo) + b[lo:lo + n]
+
+
+def comment_layers(k):
+    """a text from which `k` successive passes of comment removal each remove something: removing
+    the comments of `t.replace('/*', '//**/*')` gives back `t` (every `/*` is split by a comment that
+    the scan meets first).  The length doubles per layer -- no text of feasible size needs more
+    than ~20 passes (unlike reference decoding, where one layer costs four characters)."""
+    t = '/**/'
+    for _ in range(k - 1):
+        t = t.replace('/*', '//**/*')
+    return t
+
+
+DEEP_SHAPES = {
+    # shape: vias
+    'amp-layers-href': ('html', 'raw'),          # '&' 'amp;'*D '#106;avascript:alert(1)' in a URI attribute
+    'amp-layers-title': ('html', 'raw'),         # ... in an attribute that is kept
+    'amp-layers-style': ('html', 'raw'),         # ... inside url( ) of a style attribute
+    'amp-layers-unsafe-attr': ('raw',),          # ... in an attribute that is dropped (decoded before the test)
+    'many-refs': ('html', 'raw'),                # D separate references in one value (one pass, long)
+    'comment-layers': ('css', 'raw'),            # `depth` = number of passes (text length 2^(depth+1))
+    'comment-layers-expression': ('css', 'raw'),  # the keyword is assembled by the last pass
+    'css-escape-chain': ('css', 'raw'),          # D escapes in a row, `\5c ` chains in front of `75 rl(`
+    'css-many-decls': ('css', 'raw'),            # D declarations, every third one unsafe
+    'css-many-urls': ('css', 'raw'),             # D url( ) tokens in one declaration, the last one unsafe
+    'nested-safe': ('html', 'raw'),              # D nested safe elements
+    'nested-unsafe-same': ('html', 'raw'),       # D nested unsafe elements of one name: the depth counter
+    'nested-mixed': ('html', 'raw'),             # safe and unsafe elements alternating
+    'nested-unsafe-by-attr': ('raw',),           # input type=password holding D safe inputs
+    'many-attrs': ('html', 'raw'),               # one element, D attributes (safe, unsafe, URI, style)
+    'long-value': ('html', 'raw'),               # values / text of 40*D characters, blanks inside a scheme
+    'many-siblings': ('html', 'raw'),            # a flat stream of 2*D elements
+    'stray-ends': ('raw',),                      # D END events without START, then D STARTs never closed
+    'uri-long': ('uri',),                        # is_safe_uri by itself: noise of 40*D characters inside and in front of a scheme
+    'ent-many': ('ent',),                        # stripentities by itself: D references of every kind, D unterminated ones
+}
+DEEP_LOG = ('comment-layers', 'comment-layers-expression')
+
+
+def deep_specs(seed, thorough):
+    """the cases of the deep stream: every shape x via at a depth just beyond the recursion limit
+    (seed-dependent) and, for half of them by rotation, at a second larger depth"""
+    import sys
+    rng = random.Random('%s/deep/C06' % (seed,))
+    limit = max(1000, sys.getrecursionlimit())
+    specs = []
+    style = {'safe_attrs': {'add': ['style']}}
+    names = sorted(DEEP_SHAPES)
+    for i, shape in enumerate(names):
+        for via in DEEP_SHAPES[shape]:
+            if shape in DEEP_LOG:
+                depths = [rng.randrange(9, 12)] + ([14] if thorough else [])
+            else:
+                depths = [limit + 60 + rng.randrange(0, 400)]
+                if thorough or (i + seed) % 2 == 0:
+                    depths.append(2 * limit + 500 + rng.randrange(0, 300))
+                if thorough and shape.startswith(('amp-layers', 'nested')):
+                    depths.append(6 * limit)
+            for d in depths:
+                cfg = style if ('style' in shape or 'css' in shape or 'comment' in shape or shape == 'many-attrs'
+                                or rng.random() < 0.3) else None
+                specs.append({'kind': 'deep', 'shape': shape, 'via': via, 'depth': d, 'cfg': cfg})
+    return specs
+
+
+def expand_deep(case):
+    """the concrete case (kind html / raw / css) a deep case stands for"""
+    shape, via, D, cfg = case['shape'], case['via'], case['depth'], case.get('cfg')
+    q = lambda n: ['', n]
+    layers = '&' + 'amp;' * D + '#106;avascript:alert(1)'
+
+    def elem_case(tag, attrs, inner_text='x'):
+        """one element with the attributes, by the parser or as events"""
+        if via == 'html':
+            esc = lambda v: v.replace('&', '&amp;').replace('"', '&quot;').replace('<', '&lt;')
+            # through the parser the text is what an author would write: the layers themselves
+            # are the escaping (html.parser and genshi's HTMLParser each take one off)
+            raw = lambda v: v.replace('"', '&quot;')
+            text = '<%s %s>%s</%s>' % (tag, ' '.join('%s="%s"' % (n, raw(v)) for n, v in attrs), inner_text, tag)
+            return {'kind': 'html', 'text': text, 'cfg': cfg}
+        return {'kind': 'raw', 'cfg': cfg,
+                'events': [['S', q(tag), [[q(n), v] for n, v in attrs]], ['T', inner_text, False], ['E', q(tag)]]}
+
+    def css_case(text):
+        if via == 'css':
+            return {'kind': 'css', 'text': text, 'cfg': cfg}
+        return {'kind': 'raw', 'cfg': cfg, 'events': [['S', q('p'), [[q('style'), text]]], ['T', 'x', False], ['E', q('p')]]}
+
+    def nest_case(tags, attrs_of=lambda i: [], tail=True):
+        """tags[0] > tags[1] > ... with a text in the innermost and after every END"""
+        if via == 'html':
+            parts = []
+            for i, t in enumerate(tags):
+                parts.append('<%s%s>' % (t, ''.join(' %s="%s"' % (n, v) for n, v in attrs_of(i))))
+            parts.append('in')
+            for t in reversed(tags):
+                parts.append('</%s>%s' % (t, 'a' if tail else ''))
+            return {'kind': 'html', 'text': '<div>' + ''.join(parts) + '</div>', 'cfg': cfg}
+        evs = [['S', q('div'), []]]
+        for i, t in enumerate(tags):
+            evs.append(['S', q(t), [[q(n), v] for n, v in attrs_of(i)]])
+        evs.append(['T', 'in', False])
+        for t in reversed(tags):
+            evs.append(['E', q(t)])
+            if tail:
+                evs.append(['T', 'a', False])
+        evs.append(['E', q('div')])
+        return {'kind': 'raw', 'events': evs, 'cfg': cfg}
+
+    if shape == 'amp-layers-href':
+        return elem_case('a', [('href', layers), ('title', 't')])
+    if shape == 'amp-layers-title':
+        return elem_case('p', [('title', layers)])
+    if shape == 'amp-layers-style':
+        return elem_case('p', [('style', 'color: red; background: url(' + layers + ')')])
+    if shape == 'amp-layers-unsafe-attr':
+        return elem_case('p', [('onclick', layers), ('class', 'c')])
+    if shape == 'many-refs':
+        return elem_case('a', [('href', '&#106;&#x61;&#118;&#97;' * D + 'script:alert(1)'), ('title', '&lt;&amp;' * D)])
+    if shape == 'comment-layers':
+        return css_case('color: red' + comment_layers(D) + '; width: 1px')
+    if shape == 'comment-layers-expression':
+        return css_case('width: e' + comment_layers(D) + 'xpression(alert(1)); color: u' + comment_layers(D - 1) + 'rl(javascript:x)')
+    if shape == 'css-escape-chain':
+        return css_case('color: ' + '\\5c ' * D + '75 rl(javascript:x); background: ' + '\\75 \\72 \\6c ' * (D // 3) + '(javascript:x); top: '
+                        + '\\65 ' * D)
+    if shape == 'css-many-decls':
+        return css_case(';'.join(('color: red', 'position: fixed', 'background: url(javascript:%d)' % i)[i % 3] for i in range(D)))
+    if shape == 'css-many-urls':
+        return css_case('background: ' + ' '.join('url(http://x/%d)' % i for i in range(D)) + ' url(javascript:x)')
+    if shape == 'nested-safe':
+        return nest_case(['div', 'span', 'b', 'em'] * (D // 4 + 1))
+    if shape == 'nested-unsafe-same':
+        return nest_case(['object'] * D)
+    if shape == 'nested-mixed':
+        # D nested safe elements, each holding a dropped subtree (an unsafe element with the same
+        # unsafe element and a safe one inside) in front of the next level
+        if via == 'html':
+            return {'kind': 'html', 'cfg': cfg,
+                    'text': '<div><object>o<object>p</object><b>x</b></object>' * D + 'in' + '</div>t' * D}
+        evs = []
+        for _ in range(D):
+            evs += [['S', q('div'), []], ['S', q('object'), []], ['T', 'o', False], ['S', q('object'), []], ['T', 'p', False],
+                    ['E', q('object')], ['S', q('b'), []], ['T', 'x', False], ['E', q('b')], ['E', q('object')]]
+        evs.append(['T', 'in', False])
+        for _ in range(D):
+            evs += [['E', q('div')], ['T', 't', False]]
+        return {'kind': 'raw', 'events': evs, 'cfg': cfg}
+    if shape == 'nested-unsafe-by-attr':
+        return nest_case(['input'] * D, attrs_of=lambda i: [('type', 'password' if i == 0 else 'text')])
+    if shape == 'many-attrs':
+        from genshi.filters.html import HTMLSanitizer as S
+        safe = sorted(str(x) for x in S.SAFE_ATTRS)
+        attrs = []
+        for i in range(D):
+            k = i % 4
+            if k == 0:
+                attrs.append((safe[(i // 4) % len(safe)] if via == 'raw' else 'data-%d' % i, 'v%d' % i))
+            elif k == 1:
+                attrs.append(('on%d' % i, 'alert(%d)' % i))
+            elif k == 2:
+                attrs.append(('href' if via == 'raw' or i == 2 else 'x%d' % i, ('javascript:alert(%d)' if i % 8 == 2 else 'http://x/%d') % i))
+            else:
+                attrs.append(('style' if via == 'raw' or i == 3 else 'y%d' % i, 'color: red; width: expression(%d)' % i))
+        return elem_case('a', attrs)
+    if shape == 'long-value':
+        return elem_case('a', [('href', 'java' + '\t \n' * D + 'script:alert(1)'), ('title', 'a&amp;b ' * (5 * D)),
+                               ('src', 'http://x/' + 'a' * (40 * D))], inner_text='t' * (40 * D))
+    if shape == 'many-siblings':
+        tags = ['b', 'script', 'i', 'object']
+        if via == 'html':
+            return {'kind': 'html', 'cfg': cfg, 'text': ''.join('<%s>%d</%s>' % (tags[i % 4], i, tags[i % 4]) for i in range(2 * D))}
+        evs = []
+        for i in range(2 * D):
+            evs += [['S', q(tags[i % 4]), []], ['T', str(i), False], ['E', q(tags[i % 4])]]
+        return {'kind': 'raw', 'events': evs, 'cfg': cfg}
+    if shape == 'uri-long':
+        return {'kind': 'uri', 'cfg': cfg, 'text': ' \t' * (10 * D) + 'j' + '\x00a\n' * 0 + 'ava' + '&#9;' * D + 'scr\tipt' + ' ' * (10 * D) + ':alert(1)#' + ':' * D}
+    if shape == 'ent-many':
+        return {'kind': 'ent', 'text': '&amp;&#106;&#x6A;&#X6a;&lt;&bogus;&#;&#1114112;' * D + '&' * D + '&#106' * D + '&amp' * D}
+    if shape == 'stray-ends':
+        return {'kind': 'raw', 'cfg': cfg,
+                'events': [['E', q(('b', 'object')[i % 2])] for i in range(D)] + [['S', q(('object', 'b', 'object')[i % 3]), []] for i in range(D)]}
+    raise ValueError(shape)
+
+
+def deep_shard(arg):
+    seed, idx, thorough = arg
+    res = Result()
+    case = deep_specs(seed, thorough)[idx]
+    conc = expand_deep(case)
+    res.evaluations += 1
+    res.count('kind:deep')
+    res.count('deep:%s/%s' % (case['shape'], case['via']))
+    res.count('deep-depth-total', case['depth'])
+    real = run_real(conc) if conc['kind'] in ('html', 'raw') else None
+    f = oracle_case(case, res, real)
+    if f:
+        res.failures.append(f)
+    res.nontrivial.add(json.dumps(case, sort_keys=True))
+    if real and real.get('status') == 'ok':
+        res.count('deep-events-in', len(real['inp']))
+        res.count('deep-events-out', len(real['out']))
+    compare([conc], [real], res, labels=[case])
+    res.streams = dict(('deep-' + k, v) for k, v in res.streams.items())
+    for d in res.disagreements:
+        d['stream'] = 'deep-' + d['stream']
+    return res
+
+
 def run(ctx):
     nsh = 16
     per = ctx.n(2000, 18000)
@@ -904,6 +1218,9 @@ def run(ctx):
         res.merge(r)
     L = ctx.n(3, 4)
     for r in pmap('harness.props.c06', 'exhaustive_shard', [(i, nsh, L) for i in range(nsh)]):
+        res.merge(r)
+    ndeep = len(deep_specs(ctx.seed, ctx.thorough))
+    for r in pmap('harness.props.c06', 'deep_shard', [(ctx.seed, i, ctx.thorough) for i in range(ndeep)]):
         res.merge(r)
     res.rule = ('tag soup, raw event streams (a third ill nested), style texts, URIs and reference texts from an XSS '
                 'payload vocabulary, default / style-allowing / custom configurations; non-trivial = the filter changed '
@@ -931,6 +1248,9 @@ def in_domain(case):
     """the hypotheses of the generators (ASSUMPTIONS): shrinking must not leave them, or a shrunk
     input would 'fail' on the clean tree too"""
     try:
+        if case.get('kind') == 'deep':
+            return (case.get('shape') in DEEP_SHAPES and case.get('via') in DEEP_SHAPES[case['shape']]
+                    and isinstance(case.get('depth'), int) and 1 <= case['depth'] <= (16 if case['shape'] in DEEP_LOG else 20000))
         if case.get('kind') not in ('html', 'raw', 'css', 'uri', 'ent'):
             return False
         if case['kind'] != 'raw':
